@@ -91,6 +91,39 @@ pub proof fn axiom_vec_symbol_ext(a: Vec<crate::data::Symbol>, b: Vec<crate::dat
     ensures (a@ == b@) <==> (a == b)
 {}
 
+/// the names in a set of Strings, as character sequences
+pub open spec fn view_set(s: Set<String>) -> Set<Seq<char>> { s.map(|k: String| k@) }
+pub proof fn lemma_view_set_insert(s: Set<String>, key: String)
+    ensures view_set(s.insert(key)) == view_set(s).insert(key@)
+{
+    assert forall|a: Seq<char>| view_set(s.insert(key)).contains(a) <==> view_set(s).insert(key@).contains(a) by {
+        if view_set(s.insert(key)).contains(a) {
+            let k = choose|k: String| s.insert(key).contains(k) && k@ == a;
+            if k != key { assert(s.contains(k)); assert(view_set(s).contains(a)); }
+        }
+        if view_set(s).insert(key@).contains(a) {
+            if a == key@ { assert(s.insert(key).contains(key)); assert(view_set(s.insert(key)).contains(a)); }
+            else { let k = choose|k: String| s.contains(k) && k@ == a; assert(s.insert(key).contains(k)); assert(view_set(s.insert(key)).contains(a)); }
+        }
+    }
+    assert(view_set(s.insert(key)) =~= view_set(s).insert(key@));
+}
+/// an injective family of members bounds the size of a finite set from below
+pub proof fn lemma_inj_card<A>(s: Set<A>, f: spec_fn(int) -> A, lo: int, hi: int)
+    requires s.finite(), lo <= hi,
+        forall|j: int| lo <= j < hi ==> s.contains(#[trigger] f(j)),
+        forall|j1: int, j2: int| lo <= j1 < j2 < hi ==> #[trigger] f(j1) != #[trigger] f(j2),
+    ensures s.len() >= hi - lo
+    decreases hi - lo
+{
+    if lo < hi {
+        let x = f(hi - 1);
+        let s1 = s.remove(x);
+        assert forall|j: int| lo <= j < hi - 1 implies s1.contains(#[trigger] f(j)) by {}
+        lemma_inj_card(s1, f, lo, hi - 1);
+    }
+}
+
 pub broadcast group group_string_keys { axiom_contains_str_key, axiom_maps_str_key_to_value, axiom_set_contains_str_key, axiom_contains_strref_key, axiom_maps_strref_key_to_value }
 
 pub assume_specification<'a, K, V, S, A, Q>[ HashMap::<K, V, S, A>::get_mut::<Q> ](m: &'a mut HashMap<K, V, S, A>, k: &Q) -> (r: Option<&'a mut V>)
